@@ -1,4 +1,5 @@
 import ZV.Model.C17
+import ZV.Generated.C17
 /-! line protocol for C17 (see go/props/c17/rig/rig.go):
     `c17 scan <start> <max> <tree> <batch> <nf> <nm> <opts> <kinds> <script> <sched>`
     output `ret=<n>;cnt=<certs>,<precerts>,<unparsable>,<nonfatal>;cb=<idx>:<kind><c|p>,…;req=<s>-<e>,…`
@@ -47,6 +48,14 @@ def schedOf (s : String) (nf nm : Nat) : List Worker :=
       let d := (c.toNat - 48) % (nf + nm)
       some (if d < nf then Worker.f d else Worker.m (d - nf)))
 
+/-- schedule of the bounded model: digit `d` picks thread `d mod (nf+nm+1)`: 0 = the main goroutine of `Scan`,
+    then the fetchers, then the matchers -/
+def bschedOf (s : String) (nf nm : Nat) : List BWorker :=
+  if s = "-" then []
+  else s.toList.map (fun c =>
+    let d := (c.toNat - 48) % (nf + nm + 1)
+    if d = 0 then BWorker.main else if d - 1 < nf then BWorker.f (d - 1) else BWorker.m (d - 1 - nf))
+
 def insertBy {α} (k : α → Nat) (x : α) : List α → List α
   | [] => [x]
   | y :: ys => if k y < k x then y :: insertBy k x ys else x :: y :: ys
@@ -66,10 +75,15 @@ def handleScanOn (ob : Obj) (start mx tree batch nf nm : Nat) (o : Opts) (kinds 
   let ob0 := resetCounters ob
   if start < stop ∧ batch = 0 then ("hang", ob0)
   else
-    let st0 := initOn ob0 start stop batch nf nm (lookupScript tbl)
-    let st1 := run st0 (schedOf sched nf nm)
-    let st := roundRobin st1 (mu st1 + 1)
-    if !finished st then ("stuck", ob0)
+    -- the BOUNDED model with the channel capacities extracted from the source of `Scan`: main goroutine,
+    -- fetchers and matchers under the schedule of the case line, then round-robin to completion
+    -- (`bounded_round_robin_finishes`); a run that cannot finish (nf = 0 or nm = 0 with more ranges / entries
+    -- than the channel holds) prints `stuck`
+    let b0 := binitOn ob0 Gen.fetchesCap Gen.jobsCap start stop batch nf nm (lookupScript tbl)
+    let b1 := brun b0 (bschedOf sched nf nm)
+    let b2 := broundRobin b1 (bmu b1 + 1)
+    let st := b2.st
+    if !bfinished b2 then ("stuck", ob0)
     else
       -- cross-check inside the model: per range, the interleaved fetcher sends the requests of `fetchRange`
       let seqReqs := (ranges start stop batch).flatMap (fun r => (fetchRange r.1 r.2 (lookupScript tbl r.2)).2)
